@@ -41,6 +41,7 @@ class Event:
     op: Optional[str] = None
     loop: int = 0  # loop nesting depth at the event
     guards: Tuple = ()
+    raw: Optional[ast.AST] = None  # un-expanded target (stores)
 
 
 @dataclass
@@ -53,10 +54,11 @@ class Path:
     ret_node: Optional[ast.AST] = None
     loop: int = 0
     assigned: Dict[str, int] = field(default_factory=dict)  # name -> number of assignments
+    attrs: Dict[str, ast.AST] = field(default_factory=dict)  # self.attr values when expand_self=False
 
     def fork(self) -> "Path":
         p = Path(dict(self.env), list(self.guards), list(self.events), dict(self.loopvars),
-                 self.ret, self.ret_node, self.loop, dict(self.assigned))
+                 self.ret, self.ret_node, self.loop, dict(self.assigned), dict(self.attrs))
         return p
 
 
@@ -207,7 +209,8 @@ FALL, RET, BRK, CONT = "fall", "ret", "break", "continue"
 
 
 class Walker:
-    def __init__(self, func_node: ast.FunctionDef, max_paths: int = MAX_PATHS, loops_zero: bool = False):
+    def __init__(self, func_node: ast.FunctionDef, max_paths: int = MAX_PATHS, loops_zero: bool = False, expand_self: bool = True):
+        self.expand_self = expand_self
         self.fn = func_node
         self.max_paths = max_paths
         self.loops_zero = loops_zero
@@ -238,7 +241,20 @@ class Walker:
     def ev(self, p: Path, kind, node, target=None, value=None, op=None):
         p.events.append(Event(kind, node, target, value, op, p.loop, tuple(p.guards)))
 
+    _ids = 0
+
+    def _tag(self, value: ast.AST):
+        """identity of one evaluation: copies made by substitution keep `_def_id`, so two
+        uses of one variable are recognisably the same value, two textually equal calls are not"""
+        if value is not None and not hasattr(value, "_def_id") and isinstance(value, ast.AST):
+            Walker._ids += 1
+            try:
+                value._def_id = Walker._ids
+            except Exception:
+                pass
+
     def assign(self, p: Path, target: ast.AST, value: ast.AST, node):
+        self._tag(value)
         if isinstance(target, ast.Name):
             p.env[target.id] = value
             p.assigned[target.id] = p.assigned.get(target.id, 0) + 1
@@ -252,13 +268,16 @@ class Walker:
             ch = attr_chain(target)
             tgt = subst(target, p.env) if not (ch and ch.startswith("self.")) else target
             self.ev(p, "attr", node, tgt, value)
-            if ch is not None:
+            if ch is not None and not self.expand_self:
+                p.attrs[ch] = value
+            elif ch is not None:
                 p.env[ch] = value
                 # invalidate longer chains
                 for k in [k for k in p.env if k.startswith(ch + ".")]:
                     del p.env[k]
         elif isinstance(target, ast.Subscript):
             self.ev(p, "store", node, subst(target, p.env), value)
+            p.events[-1].raw = target
         else:
             raise AnalysisError(f"assignment target {dump(target)}")
 
@@ -454,8 +473,9 @@ def _load(t: ast.AST) -> ast.AST:
     return t2
 
 
-def paths(func_node: ast.FunctionDef, loops_zero: bool = False) -> List[Path]:
-    return Walker(func_node, loops_zero=loops_zero).run()
+def paths(func_node: ast.FunctionDef, loops_zero: bool = False, expand_self: bool = True) -> List[Path]:
+    """expand_self=False: `self.attr` reads are left as written (assignments recorded as events only)"""
+    return Walker(func_node, loops_zero=loops_zero, expand_self=expand_self).run()
 
 
 def returns(func_node: ast.FunctionDef) -> List[Path]:
@@ -475,3 +495,20 @@ def is_const(node, value=None) -> bool:
 
 def unparse_all(nodes) -> List[str]:
     return [dump(n) for n in nodes]
+
+
+def def_id(node) -> object:
+    """identity of the evaluation a (sub)expression came from (None for literals in place)"""
+    return getattr(node, "_def_id", None)
+
+
+def same_value(a: ast.AST, b: ast.AST) -> bool:
+    """same expanded text and, for calls (possibly effectful / random), the same evaluation"""
+    if dump(a) != dump(b):
+        return False
+    ca = [getattr(n, "_def_id", None) for n in ast.walk(a) if isinstance(n, ast.Call)]
+    cb = [getattr(n, "_def_id", None) for n in ast.walk(b) if isinstance(n, ast.Call)]
+    ia, ib = getattr(a, "_def_id", None), getattr(b, "_def_id", None)
+    if isinstance(a, ast.Call):
+        return ia is not None and ia == ib
+    return True
